@@ -1551,9 +1551,12 @@ class BaseSpaceImpl(*_base_space_impl_base):
             if not cells.is_cached:
                 self.model.clear_obj(cells)
             cells.on_delete()
-        for ref in self.own_refs.values():
-            # Clear values that read the references by attribute access
-            self.model.clear_attr_referrers(ref)
+        # Clear values that read references by attribute access on this space,
+        # including the model-level references reached through it.
+        refs = self.own_refs if self.is_dynamic() else self.refs
+        for ref in refs.values():
+            if isinstance(ref, ReferenceImpl):
+                self.model.clear_attr_referrers(ref)
         super().on_delete()
 
 
